@@ -85,6 +85,7 @@ func (p *Program) verifyFunction(fn *ssa.Function, fc *FuncContract) (res *FuncR
 	}
 	env := x.envFor(st, fr)
 	env.old = nil
+	goTypeResolver = func(name string) types.Type { return p.resolveGoType(env.pkg, name) }
 	if fc != nil {
 		for _, g := range fc.Ghosts {
 			srt, typ := ghostSort(g.Type)
@@ -192,4 +193,42 @@ func shortFile(f string) string {
 		return f[i+6:]
 	}
 	return f
+}
+
+
+// resolveGoType interprets *pkg.Name, pkg.Name, Name and []T relative to a package's scope and imports.
+func (p *Program) resolveGoType(pkg *types.Package, s string) types.Type {
+	s = strings.TrimSpace(s)
+	if strings.HasPrefix(s, "*") {
+		if t := p.resolveGoType(pkg, s[1:]); t != nil {
+			return types.NewPointer(t)
+		}
+		return nil
+	}
+	if strings.HasPrefix(s, "[]") {
+		if t := p.resolveGoType(pkg, s[2:]); t != nil {
+			return types.NewSlice(t)
+		}
+		return nil
+	}
+	if obj := types.Universe.Lookup(s); obj != nil {
+		return obj.Type()
+	}
+	if pkg == nil {
+		return nil
+	}
+	if i := strings.Index(s, "."); i > 0 {
+		for _, imp := range pkg.Imports() {
+			if imp.Name() == s[:i] {
+				if obj := imp.Scope().Lookup(s[i+1:]); obj != nil {
+					return obj.Type()
+				}
+			}
+		}
+		return nil
+	}
+	if obj := pkg.Scope().Lookup(s); obj != nil {
+		return obj.Type()
+	}
+	return nil
 }
